@@ -127,6 +127,15 @@ def check(P, R):
             isinstance(st, ast.Assign) for b in lp.body for st in walk_shallow(b))
         R.ob('C14.b', bi, lp, ok, text=f'for {short(lp.target)} in {short(lp.iter)}: self.headers.append', detail='' if ok else
              'constructor headers are not stored through self.headers.append (guarded)')
+        # ... and through nothing else: setdefault hands a list on as it is (its items are neither type-checked nor scanned)
+        tnames = {x.id for x in ast.walk(lp.target) if isinstance(x, ast.Name)}
+        for c in calls:
+            if isinstance(c.func, ast.Attribute) and dotted(c.func.value) in ('self.headers', 'self._headers', 'self.headers.dict') and c.func.attr not in ('append',) \
+                    and any(isinstance(x, ast.Name) and x.id in tnames for a_ in c.args for x in ast.walk(a_)):
+                R.ob('C14.b', bi, c, False, text=f'{short(c)}', detail=
+                     f'a constructor header value is stored with `{c.func.attr}`, which does not guard every value it is given (a list is handed on item by item unchecked): '
+                     f"headers={{'Set-Cookie': ['a=1', 'b=2\\r\\nX-Injected: 1']}} reaches the header list verbatim",
+                     why='a value offered through the response constructor arguments is guarded like any other setter', key_extra='ctor-other-setter')
 
     check_guard(P, R)
     check_emission(P, R)
@@ -166,6 +175,13 @@ def check_guard(P, R):
     f = P.func(f'{CH}:_hval')
     g, rd = f.cfg, f.rd
     p = f.params[0]
+    # the text emitted for a value is computed from that very value: a memo keyed by equality hands 1.0 the text of True ('True' == 1 == 1.0 as keys)
+    memo = [src(d) for d in f.node.decorator_list if (dotted(d.func) if isinstance(d, ast.Call) else dotted(d) or '').split('.')[-1] in ('lru_cache', 'cache', 'memoize', 'cached')
+            and not (isinstance(d, ast.Call) and any(k.arg == 'typed' and is_const(k.value, True) for k in d.keywords))]
+    R.ob('C14.c', f, f.node, not memo, text='the guard converts the value it is given (no equality-keyed memo)', detail='' if not memo else
+         f'_hval is memoised by `{memo[0]}`: the memo is keyed by equality and hash, and False == 0 == 0.0, True == 1 == 1.0, so after a float 1.0 was set '
+         f'anywhere in the process a later bool True is emitted as "1.0" (and the reverse): the emitted value no longer decodes back to the text of the value offered',
+         why='every emitted header value decodes back to the original text', key_extra='no-memo')
     # type test whose failing edge raises TypeError
     ok = False
     for n in g.nodes:
@@ -411,6 +427,51 @@ def check_emission(P, R):
     R.ob('C14.d', br.module.name + ':BaseResponse', None, ok204, text=f'bad_headers[204] = {sorted(val.get(204, ()))}', detail='' if ok204 else '204 does not withhold Content-Type')
     R.ob('C14.d', br.module.name + ':BaseResponse', None, ok304, text=f'bad_headers[304] = {sorted(val.get(304, ()))}', detail='' if ok304 else
          f'304 does not withhold {sorted(ENTITY_304 - {x.lower() for x in val.get(304, ())})}')
+    # the table is keyed by int codes: the code kept by the status setter is an int on every path (a status line's code goes through int())
+    if isinstance(val, dict) and all(isinstance(k_, int) for k_ in val):
+        st_f = P.func(f'{RS}:BaseResponse.status#2')
+        sg, srd = st_f.cfg, st_f.rd
+        spar = st_f.params[1]
+        int_tests = [n for n in sg.nodes if n.kind == 'test' and n.ast is not None and any(
+            isinstance(c, ast.Call) and dotted(c.func) == 'isinstance' and len(c.args) == 2 and src(c.args[0]) == spar and 'int' in src(c.args[1]) for c in ast.walk(n.ast))]
+
+        def elem_values(node, name, seen=None):
+            seen = seen if seen is not None else set()
+            out = []
+            for d in srd.at(node, name):
+                if id(d) in seen:
+                    continue
+                seen.add(id(d))
+                stx = getattr(d, 'stmt', None)
+                v = d.value
+                if isinstance(stx, ast.Assign) and isinstance(stx.targets[0], ast.Tuple) and isinstance(stx.value, ast.Tuple) and len(stx.targets[0].elts) == len(stx.value.elts):
+                    for t_, v_ in zip(stx.targets[0].elts, stx.value.elts):
+                        if isinstance(t_, ast.Name) and t_.id == name:
+                            v = v_
+                if isinstance(v, ast.Name) and v.id != name and srd.is_local(v.id) and v.id != spar:
+                    out += elem_values(d.node, v.id, seen)
+                else:
+                    out.append((v, d))
+            return out
+
+        def is_int_value(v, d):
+            if v is None:
+                return d.kind == 'param' and False
+            if isinstance(v, ast.Call) and dotted(v.func) == 'int':
+                return True
+            if isinstance(v, ast.Constant) and isinstance(v.value, int):
+                return True
+            if isinstance(v, ast.Name) and v.id == spar:
+                return any(sg.edge_dominates(t_, 'true', d.node) for t_ in int_tests)
+            return False
+        for st_ in [x for x in walk_shallow(st_f.node) if isinstance(x, ast.Assign) and any(dotted(t_) == f'{st_f.params[0]}._status_code' for t_ in x.targets)]:
+            sn = sg.node_of_stmt(st_)[0]
+            vals_ = elem_values(sn, st_.value.id) if isinstance(st_.value, ast.Name) else [(st_.value, None)]
+            bad_ = [v for (v, d) in vals_ if not (is_int_value(v, d) if d is not None else (isinstance(v, ast.Call) and dotted(v.func) == 'int'))]
+            R.ob('C14.d', st_f, st_, bool(vals_) and not bad_, text=f'{short(st_)}: an int on every path', detail='' if vals_ and not bad_ else
+                 f'the status code kept for a status given as text is `{short(bad_[0]) if bad_ and bad_[0] is not None else "?"}`, not an int: headerlist looks the code up in the '
+                 f'int-keyed bad_headers table, finds nothing for "304" / "204" and emits the forbidden entity headers (and the default Content-Type)',
+                 why='entity headers forbidden for 204 and 304 responses are withheld, however the status was given', key_extra='status-code-int')
     # names in the table are spelled the way they are stored? (comparison is exact: report as note)
     # wsgi passes response.headerlist to start_response
     w = P.func('ombott.ombott:Ombott.wsgi')
